@@ -11,11 +11,24 @@ def specPut (S : Sys) (m : Path → Option (List Chunk)) (r : Req) : (Path → O
   if (m r.dst).map S.H = r.expected then upd m r.dst (some r.chunks)
   else upd m (S.cname r.dst r.declared) (some r.chunks)
 
+/-- the atomic specification of a Delete -/
+def specDel (S : Sys) (m : Path → Option (List Chunk)) (r : Req) : (Path → Option (List Chunk)) :=
+  if (m r.dst).map S.H = r.expected then upd m r.dst none else m
+
+/-- inside the critical section -/
+def holds : Pc → Bool
+  | .locked _ => true
+  | .decided _ _ => true
+  | .renamed => true
+  | .dlocked => true
+  | .ddecided _ => true
+  | _ => false
+
 /-- lock discipline + the value read under the lock is still current -/
 structure LInv (S : Sys) (s : State) : Prop where
-  holder : ∀ i, (∃ fd, s.pc i = .locked fd) ∨ (∃ fd c, s.pc i = .decided fd c) ∨ s.pc i = .renamed →
-      s.lock = some i
+  holder : ∀ i, holds (s.pc i) = true → s.lock = some i
   cur : ∀ i fd c, s.pc i = .decided fd c → c = ((s.dir (S.req i).dst).map (fun n => S.H (s.ino n)))
+  dcur : ∀ i c, s.pc i = .ddecided c → c = ((s.dir (S.req i).dst).map (fun n => S.H (s.ino n)))
 
 theorem abs_stutter_write {S init s} (wf : WF S) (inv : Inv S init s) {i fd k} (c : Chunk)
     (h : s.pc i = .writing fd k) :
@@ -88,6 +101,32 @@ theorem conflict_refines {S init s} (wf : WF S) (inv : Inv S init s) (linv : LIn
   · by_cases e2 : p = S.cname (S.req i).dst (S.req i).declared
     · subst e2; simp [abs, upd, hcn, e1, hown, hfull.1]
     · simp [abs, upd, e1, e2]
+
+theorem dunlink_refines {S init s} (wf : WF S) (inv : Inv S init s) (linv : LInv S s) {i cur}
+    (h : s.pc i = .ddecided cur) (hc : cur = (S.req i).expected) :
+    abs S { s with dir := upd s.dir (S.req i).dst none, pc := upd s.pc i .renamed } = specDel S (abs S s) (S.req i) := by
+  have hdst := wf.dst_ns i
+  have hcur := linv.dcur i cur h
+  have hexp : ((abs S s) (S.req i).dst).map S.H = (S.req i).expected := by
+    simp only [abs, hdst]
+    rw [← hc, hcur]
+    cases s.dir (S.req i).dst <;> simp
+  unfold specDel; rw [if_pos hexp]
+  funext p
+  by_cases e2 : p = (S.req i).dst
+  · subst e2; simp [abs, upd, hdst]
+  · simp [abs, upd, e2]
+
+theorem dkeep_refines {S init s} (wf : WF S) (_inv : Inv S init s) (linv : LInv S s) {i cur}
+    (h : s.pc i = .ddecided cur) (hc : cur ≠ (S.req i).expected) :
+    abs S { s with pc := upd s.pc i .renamed } = specDel S (abs S s) (S.req i) := by
+  have hdst := wf.dst_ns i
+  have hcur := linv.dcur i cur h
+  have hexp : ¬ ((abs S s) (S.req i).dst).map S.H = (S.req i).expected := by
+    simp only [abs, hdst]
+    intro e; apply hc; rw [hcur, ← e]
+    cases s.dir (S.req i).dst <;> simp
+  unfold specDel; rw [if_neg hexp]; rfl
 
 #print axioms commit_refines
 #print axioms conflict_refines
